@@ -7,6 +7,6 @@ if ! (cd "$D" && patch -p1 -s --no-backup-if-mismatch < "$P"); then echo "SEEDRU
 (cd "$D" && GOFLAGS=-mod=mod GOPROXY=off GOSUMDB=off GOTOOLCHAIN=local go build ./... ) || echo "SEEDRUN: does not compile"
 V=$(mktemp -d /tmp/seedv.XXXXXX); cp /verif/known_findings.json "$V/"; mkdir -p "$V/evidence"
 for ID in "$@"; do
-  /verif/bin/adcheck -property "$ID" -tier quick -repo "$D" -verif "$V" 2>&1 | grep -v "^  C\|^KNOWN" | cut -c1-${SEED_COLS:-300} | head -${SEED_LINES:-6}
+  ${ADCHECK:-/verif/bin/adcheck} -property "$ID" -tier quick -repo "$D" -verif "$V" 2>&1 | grep -v "^  C\|^KNOWN" | cut -c1-${SEED_COLS:-300} | head -${SEED_LINES:-6}
 done
 rm -rf "$D" "$V"
